@@ -213,6 +213,27 @@ type node struct {
 	chain *vh.Chain
 }
 
+// storeWrap, when set, wraps the Store handed to the next Syncer built by newNode.
+var storeWrap func(*store.Store[*vh.Header]) header.Store[*vh.Header]
+
+// stepStore is a Store whose Append, call by call, either returns as the datastore-backed Store does (the headers are
+// queued, Head lags behind until the flush loop has run) or only once they are flushed and Head has caught up (as a
+// synchronous Store implementation does).  Both are within the Store contract.
+type stepStore struct {
+	*store.Store[*vh.Header]
+	inStep func() bool
+}
+
+func (s *stepStore) Append(ctx context.Context, hs ...*vh.Header) error {
+	if err := s.Store.Append(ctx, hs...); err != nil {
+		return err
+	}
+	if s.inStep() {
+		return s.Store.Sync(ctx)
+	}
+	return nil
+}
+
 // newNode creates a store pre-populated with chain[1..have] (flushed) and a Syncer with opts; the Syncer is not started.
 func newNode(t *testing.T, chain *vh.Chain, have int, bsz int, opts ...hsync.Option) *node {
 	n := &node{chain: chain, sub: &fakeSub{}, get: newGetter(chain)}
@@ -234,7 +255,11 @@ func newNode(t *testing.T, chain *vh.Chain, have int, bsz int, opts ...hsync.Opt
 			t.Fatal(err)
 		}
 	}
-	sy, err := hsync.NewSyncer[*vh.Header](n.get, st, n.sub, opts...)
+	var hst header.Store[*vh.Header] = st
+	if storeWrap != nil {
+		hst = storeWrap(st)
+	}
+	sy, err := hsync.NewSyncer[*vh.Header](n.get, hst, n.sub, opts...)
 	if err != nil {
 		t.Fatal(err)
 	}
